@@ -112,6 +112,7 @@ type DocOptions struct {
 	AlwaysFilter bool
 	CycleBodies  bool // the k-th stream gets Bodies[k mod len(Bodies)] instead of a random element
 	BigSize      int  // > 0: bodies of kind BodyBig have exactly this many bytes
+	MidHeaderAt  int  // > 0 (with BigSize): the body has "x1 0 obj 99 endobj y" in the middle of a line, the "1" at this offset
 	Info         bool // fill in the Info dictionary
 }
 
@@ -301,7 +302,7 @@ func NewDocPlan(seed int64, opt DocOptions) (*DocPlan, error) {
 	n := opt.Objects
 	// object numbers are allocated in order 1..n+1 (object 1 is the page tree root)
 	refOf := func(i int) pdf.Reference { return pdf.NewReference(uint32(i+1), 0) }
-	g := &valGen{rng: rng, refs: func() pdf.Object { return refOf(rng.Intn(n + 1)) }, bigSize: opt.BigSize}
+	g := &valGen{rng: rng, refs: func() pdf.Object { return refOf(rng.Intn(n + 1)) }, bigSize: opt.BigSize, midHeaderAt: opt.MidHeaderAt}
 	p.objs = append(p.objs, planObj{kind: "dict", filterIdx: -1, val: pdf.Dict{"Type": pdf.Name("Pages"), "Kids": pdf.Array{}, "Count": pdf.Integer(0)}})
 	kinds := []string{"dict", "dict", "array", "int", "real", "name", "string", "bool", "null", "ref", "stream", "stream", "stream"}
 	afterMarker := false
@@ -655,6 +656,9 @@ type valGen struct {
 	refs func() pdf.Object
 	// bigSize > 0: bodies of kind BodyBig have exactly this many bytes
 	bigSize int
+	// midHeaderAt > 0: BodyBig bodies carry an object header in the middle of
+	// a line at this offset
+	midHeaderAt int
 }
 
 func (g *valGen) name() pdf.Name {
@@ -797,6 +801,9 @@ func (g *valGen) body(k BodyKind, max int) []byte {
 		if g.bigSize > 0 {
 			b = text(g.bigSize)
 			b[len(b)-1] = 'Q'
+			if at := g.midHeaderAt; at > 0 && at+24 < len(b) {
+				copy(b[at-1:], "x1 0 obj 99 endobj y")
+			}
 			break
 		}
 		b = text(1100 + g.rng.Intn(600))
